@@ -33,7 +33,7 @@ PROPS = {
 }
 
 PROPS["C16"] = {
-    "level_text": "Theorems on statement-level models of the parsers (checked slices: a Go panic is a model panic): tree round-trip parse(ser es) = es for every storable entry list, commit and tag exactness (`commit_exact`, `tag_exact`: for EVERY well-formed object — any extra header lines incl. ones spelt parent/tree/object/type, continuation lines imitating headers, any message bytes — exactly the tree+parents / object+type are returned), totality (no panic) of tree/commit/tag/batch-header/reference parsers on ALL byte strings, termination by a consumed-bytes measure; correspondence on structured objects (gpgsig/mergetag blocks, messages imitating headers, odd modes, arbitrary name bytes) and a mutation stream (truncation at every byte, flips, splices).",
+    "level_text": "Theorems on statement-level models of the parsers (checked slices: a Go panic is a model panic): tree round-trip parse(ser es) = es for every storable entry list, commit and tag exactness (`commit_exact`, `tag_exact`: for EVERY well-formed object — any extra header lines incl. ones spelt parent/tree/object/type, continuation lines imitating headers, any message bytes — exactly the tree+parents / object+type are returned), totality (no panic) of tree/commit/tag/batch-header/reference parsers on ALL byte strings, termination by a consumed-bytes measure; ParseBatchHeader and ParseReference are REGENERATED from the source (every words[i], header[len-1], header[:len-1] a checked operation) and proved to have the models' outcome; correspondence on structured objects (gpgsig/mergetag blocks, messages imitating headers, odd modes, arbitrary name bytes) and a mutation stream (truncation at every byte, flips, splices).",
     "level_note": "Trusted: Lean kernel; the hand-written models are tied to git/*.go by differential testing only (bounded by the generators); Go's strconv.ParseUint / hex.DecodeString are modelled.",
     "technique": "Lean 4 proof on parser models + differential correspondence",
     "modules": ["GitSizer.Props.C16"],
@@ -43,7 +43,7 @@ PROPS["C16"] = {
 }
 
 PROPS["C15"] = {
-    "level_text": "Theorems on the model of GetConfig/configKeyMatchesPrefix: every listing git can print (valueless keys, empty/multi-line values, any non-NUL bytes) is read back exactly and in order; prefix matching is the component-boundary relation; correspondence on raw listings (through the real GetConfig with a fake git) and on real config files in global/local/command scopes with the real `git config --list -z` as reference.",
+    "level_text": "Theorems on the model of GetConfig/configKeyMatchesPrefix: every listing git can print (valueless keys, empty/multi-line values, any non-NUL bytes) is read back exactly and in order; prefix matching is the component-boundary relation; configKeyMatchesPrefix and the record loop of GetConfig are REGENERATED from git/gitconfig.go (tools/gostr2lean: checked slices, fuelled loop) and proved to be the model on every input (never a panic, an error exactly for a listing without final NUL); correspondence on raw listings (through the real GetConfig with a fake git) and on real config files in global/local/command scopes with the real `git config --list -z` as reference.",
     "level_note": "Trusted: Lean kernel; the form of git's listing (contract config_list_z, validated against real git 2.39.5 on every generated config); the hand-written model is tied to git/gitconfig.go by differential testing.",
     "technique": "Lean 4 proof on the listing-parser model + differential correspondence",
     "modules": ["GitSizer.Props.C15"],
@@ -55,7 +55,7 @@ PROPS["C15"] = {
 }
 
 PROPS["C06"] = {
-    "level_text": "Theorems: the Combine fold equals last-matching-rule semantics for EVERY option list / pattern semantics / name; prefix matching is the '/'-boundary relation; @REFGROUP is group membership; the regenerated option table pairs --X/--no-X with the documented patterns. Correspondence: real RefGroupBuilder + pflag parsing + Finish + Categorize in-process vs model vs spec on generated configs x option sequences x reference sets.",
+    "level_text": "Theorems: the Combine fold equals last-matching-rule semantics for EVERY option list / pattern semantics / name; prefix matching is the '/'-boundary relation — proved also of prefixFilter.Filter as REGENERATED from git/ref_filter.go (checked index expression, short-circuit; never panics); @REFGROUP is group membership; the regenerated option table pairs --X/--no-X with the documented patterns. Correspondence: real RefGroupBuilder + pflag parsing + Finish + Categorize in-process vs model vs spec on generated configs x option sequences x reference sets.",
     "level_note": "Trusted: Lean kernel; Go's regexp (full-match oracle computed independently of git-sizer); pflag's in-order Set calls (exercised, not modelled); model tied to internal/refopts and git/ref_filter.go by differential testing.",
     "technique": "Lean 4 proof (fold induction) + regenerated option table + differential correspondence",
     "modules": ["GitSizer.Props.C06"],
@@ -93,7 +93,7 @@ PROPS["C03"] = {
     "modules": ["GitSizer.Props.C03", "GitSizer.Props.T1"], "engines": [{"name": "graph", "quick": 6000, "thorough": 400000, "per_shard": 1500}, {"name": "e2e", "quick": 320, "thorough": 16000, "per_shard": 20}], "rule": _GRAPH_RULE,
 }
 PROPS["C04"] = {
-    "level_text": "Theorems: the regenerated add* methods are joins in a commutative monoid; clamp is a homomorphism from the true Nat algebra; hence for ANY delivery order every finalised tree's memo = clamp(true recursive expansion); recordTree maximises the seven dimensions independently; `checkout_maxima_exact`: after every valid whole run each of the seven figures is the saturated maximum over all delivered trees of the true expansion. Judge: all tree memos and the seven maxima of the real Graph equal the clamped Nat expansion.",
+    "level_text": "Theorems: the regenerated add* methods are joins in a commutative monoid; clamp is a homomorphism from the true Nat algebra; hence for ANY delivery order every finalised tree's memo = clamp(true recursive expansion); recordTree maximises the seven dimensions independently; the code's single pass over a tree's entries in source order equals the model's base fold + subtree loop (`initialize_source_order`); `checkout_maxima_exact`: after every valid whole run each of the seven figures is the saturated maximum over all delivered trees of the true expansion. Judge: all tree memos and the seven maxima of the real Graph equal the clamped Nat expansion.",
     "level_note": "As C01. Side conditions stated in TreesOK: entry names shorter than 2^32-1 bytes (F12), blob sizes < 2^64.",
     "technique": "Lean 4 proof (aggregator invariant, monoid homomorphism) over regenerated source + differential correspondence",
     "modules": ["GitSizer.Props.C04", "GitSizer.Props.T1"], "engines": [{"name": "graph", "quick": 6000, "thorough": 400000, "per_shard": 1500}], "rule": _GRAPH_RULE,
@@ -149,7 +149,7 @@ PROPS["C08"] = {
 
 PROPS["C10"] = {
     "level": "proof",
-    "level_text": "Theorems on the protocol model of a run: exit 0 iff no git invocation failed; a failing run writes no report and an error message; exit 0 carries the complete report; `config --get` exit 1 = absent. Regenerated Wait()/close-site table checked by decide. Fault enumeration on the real binary: a fault-injecting git first on PATH (9 invocation kinds x truncation at any fraction of the output, with/without line alignment x exit statuses x SIGKILL x failure after full output), each object removed in turn, 20 s hang timeout; every observation is judged against the model's prediction (all-or-nothing).",
+    "level_text": "Theorems on the protocol model of a run: exit 0 iff no git invocation failed; a failing run writes no report and an error message; exit 0 carries the complete report; `config --get` exit 1 = absent. Regenerated Wait()/close/Next-site table checked by decide (each feeder is awaited only after its iterator was drained). REGENERATED control flow of mainImplementation: nothing is written to stdout before the scan succeeded, no error return after a report was written (kernel evaluation). Fault enumeration on the real binary: a fault-injecting git first on PATH (9 invocation kinds x truncation at any fraction of the output, with/without line alignment x exit statuses x SIGKILL x failure after full output), each object removed in turn, 20 s hang timeout; every observation is judged against the model's prediction (all-or-nothing).",
     "level_note": "Partial: goroutine liveness / hang-freedom and OS pipe behaviour are not modelled (per-run timeouts only). A subprocess that truncates its output but exits 0 is outside the property (indistinguishable from a smaller repository) and is not judged. Invalid options / ROOTs are covered by the opts engine (C14).",
     "technique": "Lean 4 proof on a protocol model + fault enumeration against the real binary",
     "modules": ["GitSizer.Props.C10"],
